@@ -88,6 +88,6 @@ def boot(argv0='hephaestus.py'):
 def scratch_root():
     base = '/dev/shm' if os.path.isdir('/dev/shm') and os.access('/dev/shm', os.W_OK) \
         else os.environ.get('TMPDIR', '/tmp')
-    d = os.path.join(base, 'verif-scratch')
+    d = os.path.join(base, 'verifscratch')
     os.makedirs(d, exist_ok=True)
     return d
